@@ -12,8 +12,9 @@
    point in time of every execution.  [holds m i c]: consumer i was handed payload cell c (cell 0 is
    the caller's payload, every other cell is a clone made by the fan-out); [view m i]: the content
    consumer i sees now; [own_view i log c0]: c0 transformed by i's own successful writes only. *)
-From Verif Require Import Common.Base C06.Model C06.Proofs C06.Proofs2.
+From Verif Require Import Common.Base C06.Model C06.Proofs C06.Proofs2 C06.TreeModel C06.TreeProofs.
 From Coq Require Import Permutation.
+From Verif Require Generated.C06FanCap Generated.C06CapWrap C06.Translated.
 
 (* ---- every consumer is invoked, exactly once, whatever earlier consumers returned -------------- *)
 (* The consumers called so far are a prefix of the fixed call order, one per LCall label ... *)
@@ -186,3 +187,59 @@ Theorem fanout_calls_ignore_context : forall caps ro_in c0 ls,
   calls_of (elog (run (new_fan caps) ro_in c0 (filter (fun l => negb (is_cancel l)) ls))).
 Proof. exact calls_ignore_cancel_l. Qed.
 Print Assumptions fanout_calls_ignore_context.
+
+(* ---- graph_noninterference: the whole built graph ------------------------------------------------- *)
+(* TreeModel.v: the consumers of a built graph as a tree (receiver fan-out, capabilitiesNodes, processors
+   forwarding the same payload, exporter fan-outs, same-signal connectors forwarding to their router fan-out),
+   run on one shared store; every declared-mutating component writes its id into the payload it receives.
+   [upstream x] is defined on the tree alone: for each component, the ids of the declared-mutating components
+   strictly upstream of it on ITS OWN path.  For every tree of the shape graph.Build produces (any depth, any
+   number of pipelines / processors / exporters / connectors, any capabilities) and every sent content:
+   every component is reached exactly once, in the fan-outs' delivery order, and receives exactly the sent
+   content followed by its upstream mutators' markers — never a marker of a component that is not upstream of
+   it — and no declared mutator ever hits a read-only payload. *)
+Theorem graph_noninterference : forall x c0,
+  is_router x = true ->
+  arrivals (snd (run_graph x c0)) = map (pref c0) (upstream x) /\ panics (snd (run_graph x c0)) = [].
+Proof. exact graph_noninterference_shape_l. Qed.
+Print Assumptions graph_noninterference.
+
+(* the shape predicate implies the semantic well-formedness used by the proof: below every fan-out, a
+   consumer that may write the payload it is given advertises MutatesData *)
+Theorem graph_shape_wellformed : forall x, is_router x = true -> ok x = true.
+Proof. exact router_ok. Qed.
+Print Assumptions graph_shape_wellformed.
+
+(* general form: any well-formed consumer tree, started on any cell of any store (read-only or not, provided
+   a consumer that writes without asking is not handed a read-only payload): additionally every other cell of
+   the store is left untouched, and a tree that does not advertise mutation leaves its payload's content as is *)
+Theorem graph_noninterference_general : forall x c s,
+  ok x = true -> c < length s -> (needs_mutable x = true -> cro (get s c) = false) ->
+  arrivals (snd (trun x c s)) = map (pref (cont (get s c))) (upstream x) /\
+  panics (snd (trun x c s)) = [] /\
+  (forall d, d < length s -> d <> c -> get (fst (trun x c s)) d = get s d) /\
+  (may_write x = false \/ cro (get s c) = true -> cont (get (fst (trun x c s)) c) = cont (get s c)).
+Proof. exact graph_noninterference_general_l. Qed.
+Print Assumptions graph_noninterference_general.
+
+(* ---- obligations against the translated source (translator T1, regenerated on every run) ---------- *)
+(* xConsumer.Capabilities as written NOW in logs.go / metrics.go / traces.go / profiles.go (Generated/C06FanCap.v)
+   equals the model's fan_cap on the whole domain *)
+Theorem fan_cap_is_source : forall m r,
+  let a := Z.of_nat (List.length m) in let b := Z.of_nat (List.length r) in
+  fan_cap (FWrap m r) = C06FanCap.logs_fan_capabilities a b /\
+  fan_cap (FWrap m r) = C06FanCap.metrics_fan_capabilities a b /\
+  fan_cap (FWrap m r) = C06FanCap.traces_fan_capabilities a b /\
+  fan_cap (FWrap m r) = C06FanCap.profiles_fan_capabilities a b.
+Proof. exact Translated.fan_cap_is_source_l. Qed.
+Print Assumptions fan_cap_is_source.
+
+From Coq Require Import String.   (* last: its [length] would shadow List.length above *)
+(* the capabilityconsumer wrappers have exactly the methods Capabilities + the embedded ConsumeX (Generated/C06CapWrap.v) *)
+Theorem cap_wrappers_only_override_capabilities :
+  C06CapWrap.capLogs_methods = ["Capabilities"; "ConsumeLogs"]%string /\
+  C06CapWrap.capMetrics_methods = ["Capabilities"; "ConsumeMetrics"]%string /\
+  C06CapWrap.capTraces_methods = ["Capabilities"; "ConsumeTraces"]%string /\
+  C06CapWrap.capProfiles_methods = ["Capabilities"; "ConsumeProfiles"]%string.
+Proof. exact Translated.cap_wrappers_methods_l. Qed.
+Print Assumptions cap_wrappers_only_override_capabilities.
